@@ -82,7 +82,13 @@ def check_parity(case):
     need(bool(np.allclose(g_first, vals, rtol=0, atol=1e-12)) and bool(np.array_equal(g_first, g_again)),
          "gamma of the same prediction vector differs between calls")
 
-    # (c) bound() = configured slack on every entry
+    # (c) bound() = configured slack on every entry - also after a caller has edited an earlier result in place
+    # (e.g. `b = m.bound(); b -= m.gamma(h)`)
+    b_first = m.bound()
+    try:
+        b_first -= 5.0
+    except Exception:  # noqa: BLE001 - a read-only result is fine too
+        pass
     b = MC.as_series(m.bound(), "bound()")
     bents = MC.split_index(b.index, "bound().index")
     need(sorted(bents) == sorted(entries), f"bound().index {bents} != index {entries}")
